@@ -637,14 +637,14 @@ pub fn run_c08(tier: Tier) -> ! {
         cfg.dev_budget = tier.pick(3, 3);
         plans.push(Plan { label: format!("{np}p"), cfg, depth: tier.pick(9, 14), max_states: tier.pick(200_000, 4_000_000), secs: tier.pick(60.0, 2400.0) });
     }
-    // endurance: the frame count bit over 2000 (thorough 150 000) consecutive requests with rare losses, power
-    // cycles and user calls, retry limits 1 and 3
-    [1u8, 3].par_iter().for_each(|retry| {
+    // endurance: the frame count bit over 80 000 (thorough 300 000) consecutive requests — with rare losses, power
+    // cycles and user calls (retry limits 1 and 3), and fault-free
+    [(1u8, true), (3, true), (1, false)].par_iter().for_each(|(retry, faults)| {
         let mut cfg = base_cfg(vec![PeriphCfg::simple(9, 2, 1)], Mon::C08, vec![Act::Answer]);
         cfg.rig.max_retry = *retry;
-        let (steps, cycles) = endurance_run(&Arc::new(cfg), tier.pick(2_000, 150_000));
-        ctx().note(format!("endurance run with max_retry_limit {retry}: {steps} requests, {cycles} DP cycles"));
-        if steps >= tier.pick(2_000, 150_000) {
+        let (steps, cycles) = endurance_run(&Arc::new(cfg), tier.pick(80_000, 300_000), *faults);
+        ctx().note(format!("endurance run with max_retry_limit {retry}, {}: {steps} requests, {cycles} DP cycles", if *faults { "rare losses / power cycles / user calls" } else { "fault-free" }));
+        if steps >= tier.pick(80_000, 300_000) {
             ctx().witness("c08_endurance_run");
         }
     });
@@ -733,6 +733,14 @@ pub fn run_c14(tier: Tier) -> ! {
             acts
         };
         plans.extend(param_sweep_plans(Mon::C14, a(1), a(2), tier));
+        // user call: enter_operate() again on the running master, at any point of a DP cycle (also between the
+        // transmission of a request and its reply), two and three peripherals, Vec and fixed storage
+        for (n, fixed) in [(2usize, None), (2, Some(4usize)), (3, None)] {
+            let ps = vec![PeriphCfg::simple(9, 2, 1), PeriphCfg::simple(11, 0, 2), PeriphCfg::simple(4, 1, 0)];
+            let mut cfg = base_cfg(ps[..n].to_vec(), Mon::C14, vec![Act::Answer, Act::ReqLost, Act::EnterOperate, Act::UserDiag(0), Act::PowerCycle]);
+            cfg.rig.fixed_slots = fixed;
+            plans.push(Plan { label: format!("{n}p fixed={fixed:?} enter_operate again"), cfg, depth: tier.pick(10, 14), max_states: tier.pick(100_000, 1_500_000), secs: tier.pick(60.0, 2400.0) });
+        }
         // a configured peripheral that belongs to ANOTHER DP master (its diagnostics name master 1, it
         // acknowledges our Set_Prm/Chk_Cfg without executing them and refuses Data_Exchange): alone, and next
         // to a peripheral of our own — events stay consistent with the life cycle and with is_live()
@@ -747,13 +755,13 @@ pub fn run_c14(tier: Tier) -> ! {
             plans.push(Plan { label: format!("{n}p locked by another master {locked:?}"), cfg, depth: tier.pick(10, 16), max_states: tier.pick(60_000, 1_000_000), secs: tier.pick(60.0, 2400.0) });
         }
     }
-    // endurance: 2000 (thorough 150 000) consecutive requests with rare losses, power cycles and user calls:
-    // more than 2^8 (thorough 2^16) DP cycles
-    [1usize, 2].par_iter().for_each(|n| {
+    // endurance: 80 000 (thorough 300 000) consecutive requests — with rare losses, power cycles and user calls,
+    // and fault-free: more than 2^16 requests and DP cycles
+    [(1usize, true), (2, true), (1, false)].par_iter().for_each(|(n, faults)| {
         let cfg = Arc::new(base_cfg(vec![PeriphCfg::simple(9, 2, 1), PeriphCfg::simple(11, 0, 2)][..*n].to_vec(), Mon::C14, vec![Act::Answer]));
-        let (steps, cycles) = endurance_run(&cfg, tier.pick(2_000, 150_000));
-        ctx().note(format!("endurance run with {n} peripheral(s): {steps} requests, {cycles} DP cycles"));
-        if cycles > tier.pick(600, 70_000) {
+        let (steps, cycles) = endurance_run(&cfg, tier.pick(80_000, 300_000), *faults);
+        ctx().note(format!("endurance run with {n} peripheral(s), {}: {steps} requests, {cycles} DP cycles", if *faults { "rare losses / power cycles / user calls" } else { "fault-free" }));
+        if cycles > 33_000 {
             ctx().witness("c14_endurance_run");
         }
     });
